@@ -20,7 +20,6 @@ PROP = {
         "atomic-step granularity of M5; races inside csync.Map / below one model step are outside the proof",
         "the connector guards of one pipeline are acquired atomically per run (multi-connector partial acquisition is folded)",
     ],
-    "race": True,
 }
 
 META = {
